@@ -44,6 +44,9 @@ func c12RetxCase(r *c12Rand, id int, fixed bool) c12Case {
 		add(1+r.intn(10), 100+r.intn(301))
 		add(1+r.intn(10), 100+r.intn(301))
 		if left := 950 - len(per[0]) - len(per[1]); left >= 100 && r.chance(35) {
+			if left > 400 {
+				left = 400
+			}
 			add(1+r.intn(10), 100+r.intn(left-99))
 		}
 		sum := 0
@@ -108,7 +111,13 @@ func c12RetxCase(r *c12Rand, id int, fixed bool) c12Case {
 				}
 			}
 		} else {
-			for i := 0; i < 400; i++ {
+			longest := 0
+			for s := range per {
+				if len(per[s]) > longest {
+					longest = len(per[s])
+				}
+			}
+			for i := 0; i < longest; i++ {
 				for s := range per {
 					send(s, i)
 				}
